@@ -23,10 +23,11 @@ def main():
     dsl.FACTORY_DENSITY = bool(job.get('factory_density'))
     from pyplate.pyplate import config
     out = {'config': {'mol': config.moles_storage_unit, 'vol': config.volume_storage_unit, 'precision': config.internal_precision},
-           'progs': [], 'recipes': []}
+           'progs': [], 'recipes': [], 'observers': []}
     for prog in job['progs']:
         obs, im = dsl.run_impl(prog)
         out['progs'].append(obs)
+        out['observers'].append(dsl.observe_all(im) if job.get('observers') else {})
     for prog in job['recipes']:
         o, r, handles, helper, initial = recipes.run_recipe(prog)
         q = recipes.run_queries(prog, r, handles, helper.subs) if o[0] == 'ok' else []
